@@ -89,6 +89,23 @@ Theorem C11_release_stacked : forall locs,
   cores h = 0 /\ mem h = 0 /\ forall m, size_at h m = measured2 init (fun _ => []) es g0 nm (MS m).
 Proof. exact release_stacked. Qed.
 
+(* Wrapped but NOT stacked locations (AvailableLocation.wraps set, stacked = False: queue managers such as Slurm/PBS/Flux
+   wrapping a host).  In the model a location is the chain of its STACKED levels only (loc, loc.wraps while loc.stacked),
+   mirroring both walks of the code: _allocate_job (`loc := loc.wraps if loc.stacked else None`) and _free_resources
+   (`[loc.wraps for loc in locations if loc.stacked]`).  Such a location is therefore the one-level chain [l], it is in the
+   domain of C11_release_stacked / C10_capacity_stacked (and of the flat theorems), and for it the two theorems below say
+   what holds below the first level: NOTHING is reserved (C11_unstacked_wrapper_reserves_first_level_only) and NOTHING is
+   released (C11_unstacked_wrapper_releases_first_level_only) on any other location — in particular on the wrapped host,
+   whose ledger keeps exactly the reservations of the jobs submitted to it directly. *)
+Theorem C11_unstacked_wrapper_reserves_first_level_only : forall st job reqs l s',
+  allocate st job reqs [[l]] = Ok s' -> lookup (req_key l) reqs <> None ->
+  forall nm, nm <> lv_name l -> lookup nm (hwloc s') = lookup nm (hwloc st).
+Proof. exact alloc_first_level_only. Qed.
+Theorem C11_unstacked_wrapper_releases_first_level_only : forall st job new fls a st' l,
+  lookup job (jobs st) = Some a -> notify st job new fls = Ok st' -> a_locs a = [[(lv_dep l, lv_name l)]] ->
+  forall nm, nm <> lv_name l -> lookup nm (hwloc st') = lookup nm (hwloc st).
+Proof. exact release_first_level_only. Qed.
+
 Example C11_release_stacked_hypotheses_met :
   conformant2 st_locs init (fun _ => []) st_history /\ no_active (run init st_history) = true /\
   ledger (run init st_history) "c0" = Some (mkhw 0 0 [("/", mkst "/" 3 [] None)]) /\
@@ -125,5 +142,7 @@ Print Assumptions C11_free_is_sub_then_add.
 Print Assumptions C11_release.
 Print Assumptions C11_release_loc.
 Print Assumptions C11_release_stacked.
+Print Assumptions C11_unstacked_wrapper_reserves_first_level_only.
+Print Assumptions C11_unstacked_wrapper_releases_first_level_only.
 Print Assumptions C11_double_release_needs_conformance.
 Print Assumptions C11_shared_inner_leak_refuted.
